@@ -43,7 +43,15 @@ COUNTRIES: List[Tuple[str, Optional[int], Optional[int]]] = [
 ]
 
 
-def deltas(period: int) -> List[Tuple[str, timedelta]]:
+# thorough tier: the first and the last second of every month of 2019 and 2020 (a leap year) as acquisition instants, more offsets (incl. half-hour
+# ones), more generic thresholds, finer deltas around the threshold (milliseconds to hours), and gift / fee / transfer-fee disposals
+ACQ_THOROUGH = ACQ + [datetime(y, m, 1, 0, 0, 0, tzinfo=timezone.utc) for y in (2019, 2020) for m in range(1, 13)] + \
+    [datetime(y, m, 1, 0, 0, 0, tzinfo=timezone.utc) - timedelta(seconds=1) for y in (2020, 2021) for m in range(1, 13)]
+OFFSETS_THOROUGH = OFFSETS + [540, -300, 60, -210]
+COUNTRIES_THOROUGH = COUNTRIES + [("generic", n, n) for n in (2, 7, 90, 364, 1000)]
+
+
+def deltas(period: int, tier: str = "quick") -> List[Tuple[str, timedelta]]:
     p = timedelta(days=period)
     out = [
         ("P-1d", p - timedelta(days=1)),
@@ -56,6 +64,12 @@ def deltas(period: int) -> List[Tuple[str, timedelta]]:
         ("P+12h", p + timedelta(hours=12)),
         ("P-12h", p - timedelta(hours=12)),
     ]
+    if tier == "thorough":
+        out += [
+            ("P-250ms", p - timedelta(milliseconds=250)), ("P+250ms", p + timedelta(milliseconds=250)), ("P-1min", p - timedelta(minutes=1)),
+            ("P+1min", p + timedelta(minutes=1)), ("P-1h", p - timedelta(hours=1)), ("P+1h", p + timedelta(hours=1)),
+            ("P+1d-1s", p + timedelta(days=1) - timedelta(seconds=1)), ("P-1d+1s", p - timedelta(days=1) + timedelta(seconds=1)), ("3P+1s", 3 * p + timedelta(seconds=1)),
+        ]
     return [(n, d) for n, d in out if d >= timedelta(0)]
 
 
@@ -67,18 +81,29 @@ def expected_long(lot_dt: datetime, ev_dt: datetime, period: Optional[int]) -> b
 
 
 def cases(tier: str) -> Iterator[Dict[str, Any]]:
-    offs = OFFSETS if tier == "thorough" else OFFSETS
-    for (cc, lt, period), acq in itertools.product(COUNTRIES, ACQ):
+    offs = OFFSETS_THOROUGH if tier == "thorough" else OFFSETS
+    n = 0
+    for (cc, lt, period), acq in itertools.product(COUNTRIES_THOROUGH if tier == "thorough" else COUNTRIES, ACQ_THOROUGH if tier == "thorough" else ACQ):
         grid_period = period if period is not None else 365
-        for (dn, d), o1, o2 in itertools.product(deltas(grid_period), offs, offs):
+        for (dn, d), o1, o2 in itertools.product(deltas(grid_period, tier), offs, offs):
             ev = acq + d
+            n += 1
+            kind = ("SELL", "GIFT", "FEE", "MOVE")[n % 4] if tier == "thorough" else "SELL"
+            if kind == "MOVE":
+                event = {"table": "intra", "timestamp": H.ts_str(ev, o2), "from_exchange": "X1", "from_holder": "H1", "to_exchange": "X2", "to_holder": "H1", "spot_price": "12",
+                         "crypto_sent": "1", "crypto_received": "0.5", "row": 11}
+            elif kind == "FEE":
+                event = {"table": "out", "timestamp": H.ts_str(ev, o2), "exchange": "X1", "holder": "H1", "transaction_type": "FEE", "spot_price": "12", "crypto_out_no_fee": "0",
+                         "crypto_fee": "1", "row": 11}
+            else:
+                event = {"table": "out", "timestamp": H.ts_str(ev, o2), "exchange": "X1", "holder": "H1", "transaction_type": kind, "spot_price": "12", "crypto_out_no_fee": "1",
+                         "crypto_fee": "0", "row": 11}
             specs = [
                 {"table": "in", "timestamp": H.ts_str(acq, o1), "exchange": "X1", "holder": "H1", "transaction_type": "BUY",
                  "spot_price": "10", "crypto_in": "2", "row": 10},
-                {"table": "out", "timestamp": H.ts_str(ev, o2), "exchange": "X1", "holder": "H1", "transaction_type": "SELL",
-                 "spot_price": "12", "crypto_out_no_fee": "1", "crypto_fee": "0", "row": 11},
+                event,
             ]
-            yield {"shape": "one lot", "country": cc, "lt": lt, "period": period, "delta": dn, "specs": specs}
+            yield {"shape": "one lot" if kind == "SELL" else f"one lot, {kind.lower()} disposal", "country": cc, "lt": lt, "period": period, "delta": dn, "specs": specs}
         # two lots straddling the threshold, one sale spanning both (fifo): lot A reaches the period, lot B misses it by one second
         for o1, o2 in itertools.product(offs, offs):
             if grid_period == 0:
@@ -311,14 +336,17 @@ def main(tier: str, budget_s: Optional[float] = None) -> int:
         "evaluations": total.get("evaluations"),
         "distinct_nontrivial": total.get("distinct_nontrivial"),
         "rule": (
-            "grid of 6 acquisition instants (leap day, year end) x 9 deltas around the threshold P (P-1d, P-12h, P-1s, P, P+1s, P+12h, P+1d, 0, 2P) "
-            "x 16 UTC-offset pairs x 10 country configurations, plus a sale straddling the threshold over two lots, earn events, and the boundary through the "
+            (f"grid of {len(ACQ_THOROUGH)} acquisition instants (first and last second of every month of 2019-2020, leap day, year end) x 18 deltas around the threshold P "
+               f"(250 ms .. 1 day on both sides, 0, 2P, 3P+1s) x {len(OFFSETS_THOROUGH) ** 2} UTC-offset pairs x {len(COUNTRIES_THOROUGH)} country configurations, the disposal rotating "
+               "over sale / gift / fee / transfer fee, plus" if tier == "thorough" else
+               "grid of 6 acquisition instants (leap day, year end) x 9 deltas around the threshold P (P-1d, P-12h, P-1s, P, P+1s, P+12h, P+1d, 0, 2P) "
+               "x 16 UTC-offset pairs x 10 country configurations, plus") + " a sale straddling the threshold over two lots, earn events, and the boundary through the "
             "spreadsheet front end with sub-second instants (P-0.5s, P-0.25s, P, P+0.5s) for lots bought with and without a crypto fee, and the LONG/SHORT "
             "column of rp2_full_report.ods / tax_report_us.ods read back for lots and disposals on both sides of the threshold; "
             "distinct by construction; non-trivial = within 12 hours of the threshold"
         ),
-        "countries": [f"{c}{'' if lt is None else '/' + str(lt)}" for c, lt, _ in COUNTRIES],
-        "offset_minutes": OFFSETS,
+        "countries": [f"{c}{'' if lt is None else '/' + str(lt)}" for c, lt, _ in (COUNTRIES_THOROUGH if tier == "thorough" else COUNTRIES)],
+        "offset_minutes": OFFSETS_THOROUGH if tier == "thorough" else OFFSETS,
         "per_shape": {k[7:]: v for k, v in sorted(total.counters.items()) if k.startswith("shape: ")},
         "exhaustive": bool(complete),
         "violations_total": total.get("violations_total"),
